@@ -311,6 +311,35 @@ func c01Gen(tier string, emit func(c01Case)) {
 	}
 	packEmit("depth", "q2", deep)
 
+	// ---- family sibs: q quantified sibling constraints (q = 1..32), one target node per sibling position that
+	// violates exactly that sibling (every variable index meets a failing and a passing instance)
+	maxQ := 32
+	for q := 1; q <= maxQ; q++ {
+		if tier != "thorough" && q > 8 && q%4 != 0 && q != 25 && q != 26 && q != 27 && q != 11 && q != 13 {
+			continue
+		}
+		emit(c01Case{Fam: "sibs", Graph: fmt.Sprintf("sibs:%d", q)})
+	}
+
+	// ---- family negtower: every size<=1 formula f under further negations and in negated positions
+	{
+		var small []*F
+		for s := 0; s <= 1; s++ {
+			small = append(small, PropFormulas(s, []int{1, 2, 3}, 2)...)
+		}
+		A := FAtom(3)
+		var tower []*F
+		for _, f := range small {
+			tower = append(tower,
+				FNot(FNot(f)), FNot(FNot(FNot(f))),
+				FIf(FNot(f), A), FIf(A, FNot(f)), FIfElse(FNot(f), A, FNot(A)),
+				FNot(FOr(FNot(f), A)), FNot(FAnd(FNot(f), A)), FOr(FNot(FNot(f)), A),
+				FNot(FIf(FNot(f), A)), FNot(FIfElse(A, FNot(f), f)),
+			)
+		}
+		packEmit("negtower", "tt3", tower)
+	}
+
 	// ---- family 3: atom catalogue
 	c01AtomCases(emit)
 }
@@ -381,9 +410,71 @@ func c01Expected(f *F, g *Graph) (map[string]bool, bool) {
 	return exp, len(exp) > 0 && len(exp) < len(ts)
 }
 
+// c01RunSibs: q sibling quantified constraints ex.k1..ex.kq (kinds rotate), node i violates exactly sibling i.
+func c01RunSibs(c *Ctx, cs c01Case) {
+	var q int
+	fmt.Sscanf(cs.Graph, "sibs:%d", &q)
+	g := &Graph{}
+	good := g.Add(EX+"good", EX+"C").P(EX+"p4", "v")
+	bad := g.Add(EX+"bad", EX+"C")
+	_ = good
+	_ = bad
+	pc := M()
+	for i := 1; i <= q; i++ {
+		inner := M("propertyConstraints", M("ex.p4", M("minCount", 1)))
+		switch i % 3 {
+		case 0:
+			pc.Set(fmt.Sprintf("ex.k%d", i), M("nested", inner))
+		case 1:
+			pc.Set(fmt.Sprintf("ex.k%d", i), M("atLeast", M("count", 1, "validation", inner)))
+		default:
+			pc.Set(fmt.Sprintf("ex.k%d", i), M("atMost", M("count", 0, "validation", M("not", inner))))
+		}
+	}
+	exp := map[string]bool{}
+	for i := 0; i <= q; i++ { // node 0 satisfies everything
+		n := g.Add(nid(i), EX+"T")
+		for k := 1; k <= q; k++ {
+			if k == i {
+				n.P(fmt.Sprintf("%sk%d", EX, k), Ref(EX+"bad"))
+			} else {
+				n.P(fmt.Sprintf("%sk%d", EX, k), Ref(EX+"good"))
+			}
+		}
+		if i > 0 {
+			exp[nid(i)] = true
+		}
+	}
+	prof := EmitYAML(M("profile", "c01 sibs", "prefixes", M("ex", EX), "violation", strs("v"),
+		"validations", M("v", M("message", "m", "targetClass", "ex.T", "propertyConstraints", pc))))
+	res := Validate(prof, g.FlatJSONLD())
+	c.Eval(1)
+	c.Nontrivial(prof)
+	if res.Panic != nil || res.Err != nil {
+		c.Violate("C01 profile rejected [sibs]: "+firstLine(res.ErrString()), prof, nil)
+		return
+	}
+	rep, err := ParseReport(res.Report)
+	if err != nil {
+		c.Violate("C01 report malformed [sibs]", err.Error(), nil)
+		return
+	}
+	got := rep.FocusSet("v")
+	if !setEq(got, exp) {
+		missing, extra := diffSets(exp, got)
+		c.Violate("C01 verdict mismatch [sibs]: a sibling quantified constraint is not evaluated at some position", fmt.Sprintf("%d siblings; nodes violating sibling i not reported: %v; reported though satisfying: %v\nprofile:\n%s", q, missing, extra, tailStr(prof, 1500)), nil)
+	}
+	c.Outcome("sibs ok")
+	c.Sample(map[string]any{"family": "sibs", "siblings": q})
+}
+
 func c01Run(c *Ctx, cs c01Case) {
 	if cs.Fam == "atoms" {
 		c01RunAtoms(c, cs)
+		return
+	}
+	if cs.Fam == "sibs" {
+		c01RunSibs(c, cs)
 		return
 	}
 	g, data := c01Graph(cs.Graph)
